@@ -158,6 +158,20 @@ impl Workspace {
   fn clear_model_evaluators(&mut self) {
     self.model_evaluators_by_name.clear();
   }
+  /// Verification hook (compiled only with `--cfg dmntk_verif`): read-only snapshot of the stored
+  /// definitions list as (namespace, name) pairs and of the sorted key sets of the three indexes.
+  #[cfg(dmntk_verif)]
+  #[allow(clippy::type_complexity)]
+  pub fn verif_snapshot(&self) -> (Vec<(String, String)>, Vec<String>, Vec<String>, Vec<String>) {
+    let list = self.definitions.iter().map(|d| (d.namespace().to_string(), d.name().to_string())).collect();
+    let mut by_namespace = self.definitions_by_namespace.keys().cloned().collect::<Vec<String>>();
+    by_namespace.sort();
+    let mut by_name = self.definitions_by_name.keys().cloned().collect::<Vec<String>>();
+    by_name.sort();
+    let mut evaluators = self.model_evaluators_by_name.keys().cloned().collect::<Vec<String>>();
+    evaluators.sort();
+    (list, by_namespace, by_name, evaluators)
+  }
   /// Utility function that loads and deploys DMN models from specified directory.
   fn load_and_deploy_models(&mut self, dir: &Path) -> usize {
     for entry in WalkDir::new(dir).into_iter().filter_map(|e| e.ok()) {
